@@ -394,8 +394,11 @@ def sections_for(pid, ctx):
         out += encoder_sections(ctx, pid)
     if pid in ("C14", "C01"):
         out += time_sections(ctx, pid)
-    if pid in ("C17", "C04"):
+    if pid in ("C17", "C04", "C01", "C02", "C07"):
+        # C01/C02/C07: the quoting contracts of the encoders call Token.is_unquoted_string through its contract
         out += token_sections(ctx, pid)
+    if pid in ("C17", "C01", "C02", "C07"):
+        out.append(keyword_tables_section(pid))
     if pid in ("C17", "C03", "C14"):
         from . import regexsec
         out += regexsec.sections_for(pid, ctx)
@@ -441,6 +444,64 @@ def replay_time(pid, data):
         for o in sec.obls:
             if o.status == "failed":
                 return f"obligation {o.name} failed: {o.detail[:300]}"
+    return None
+
+
+GRAMMAR_PAIRS = {"PVL": ("PVLGrammar", "PVLDecoder"), "ODL": ("ODLGrammar", "ODLDecoder"), "PDS3": ("PDSGrammar", "PDSLabelDecoder"),
+                 "ISIS": ("ISISGrammar", "PVLDecoder"), "Omni": ("OmniGrammar", "OmniDecoder")}
+
+
+def keyword_tables_section(pid):
+    """Ground obligations on the keyword tables of the bundled grammar classes: the reader recognises block and end keywords
+    through aggregation_keywords / end_statements, the writer decides on quotes through reserved_keywords (contract of
+    needs_quotes) - the two have to describe the same words, and the default loader's words have to be quoted by every encoder."""
+    from ..harness import DISCHARGED as _D, FAILED as _F
+    import pvl.grammar as G
+    s = Section("grammar-keyword-tables", "ground",
+                rule="per grammar class: reserved_keywords (the writer's table) contains every key and value of aggregation_keywords and "
+                     "every end statement (the reader's tables), in the letter case the tables are compared in; and the words the "
+                     "default loader's grammar reads as keywords are reserved in the grammar of every bundled encoder")
+
+    def words(g):
+        return {w.casefold() for w in list(g.aggregation_keywords) + list(g.aggregation_keywords.values()) + list(g.end_statements)}
+    classes = [G.PVLGrammar, G.ODLGrammar, G.PDSGrammar, G.ISISGrammar, G.OmniGrammar]
+    for gcls in classes:
+        g = gcls()
+        res = {w.casefold() for w in g.reserved_keywords}
+        missing = sorted(words(g) - res)
+        s.obl(f"pvl.grammar.{gcls.__name__}:reserved_keywords-contains-the-reader's-block-and-end-keywords", _D if not missing else _F, "ground",
+              detail=f"not reserved: {missing}")
+        grp = {k.casefold() for k in g.group_keywords} | {k.casefold() for k in g.object_keywords}
+        missing = sorted(grp - {k.casefold() for k in g.aggregation_keywords})
+        s.obl(f"pvl.grammar.{gcls.__name__}:aggregation_keywords-contains-the-group-and-object-keywords", _D if not missing else _F, "ground",
+              detail=f"missing: {missing}")
+    omni = words(G.OmniGrammar())
+    for gcls in classes[:4]:
+        res = {w.casefold() for w in gcls().reserved_keywords}
+        missing = sorted(omni - res)
+        s.obl(f"pvl.grammar.{gcls.__name__}:the-default-loader's-keywords-are-reserved-for-this-encoder-grammar", _D if not missing else _F,
+              "ground", detail=f"read as keywords by OmniGrammar, written bare with this grammar: {missing}")
+    s.assumptions.append("the tables are read from the live class objects after import (class attributes, not per-instance state)")
+    return s
+
+
+def is_token_record(data):
+    return str(data.get("function", "")).startswith(("pvl.token.", "pvl.decoder.")) and "text" in data and data.get("grammar") in GRAMMAR_PAIRS
+
+
+def replay_token(pid, data):
+    """evaluate the contract of one Token predicate on the recorded text natively, on the current tree"""
+    from ..contracts import encoder as ce
+    from ..pyvc import encnative
+    import pvl.grammar as G
+    import pvl.decoder as D
+    gn, dn = GRAMMAR_PAIRS[data["grammar"]]
+    g = getattr(G, gn)()
+    d = getattr(D, dn)(grammar=g)
+    for c in ce.token_contracts():
+        if c.target == data["function"] and getattr(c, "fn", None) is not None:
+            bad = encnative.check_token(c, g, d, data["text"])
+            return f"{data['grammar']}: {bad[0]}" if bad else None
     return None
 
 
